@@ -47,6 +47,7 @@ type lintRecord struct {
 	selKey  string
 	sel     map[string]bool
 	script  Script
+	clock   int64 // simulated instant at which the call was made (0 = real clock)
 }
 
 type histState struct {
@@ -71,6 +72,9 @@ type histState struct {
 	emptyCfg lint.Configuration
 	tmpDir   string
 	curScriptBad map[string]bool
+	harnessErr   string
+	clock        int64           // simulated clock (fine-grain build, clock mode); 0 = real clock
+	clockReads   map[string]int  // clock reads of the code under test since the last lint call began, by site
 }
 
 func (h *histState) violate(v Violation) {
@@ -178,7 +182,7 @@ func runHist(p *Plan, keepLog bool) *RunResult {
 	}
 
 	res := &RunResult{Seed: p.Seed, Engine: "hist", Prop: p.Prop, TraceHash: h.log.Hash(), Steps: h.log.Seq(), Ops: len(p.Ops),
-		Checks: h.checks, Counters: h.ctr, Violations: h.viol, Nontrivial: h.nontriv, Distinct: map[string][]string{}}
+		Checks: h.checks, Counters: h.ctr, Violations: h.viol, Nontrivial: h.nontriv, Distinct: map[string][]string{}, HarnessErr: h.harnessErr}
 	for _, k := range sortedKeys(h.distinct) {
 		res.Distinct[k] = sortedKeys(h.distinct[k])
 	}
@@ -192,6 +196,23 @@ func runHist(p *Plan, keepLog bool) *RunResult {
 		os.RemoveAll(h.tmpDir)
 	}
 	return res
+}
+
+func (h *histState) setClock(t int64) {
+	if !fineGrainBuild {
+		h.aborted = true
+		h.log.Add("harness: a clock op needs the zsim.fg build")
+		h.harnessErr = "clock ops need the zsim.fg build"
+		return
+	}
+	if h.clock != 0 && t < h.clock {
+		h.ctr.inc("fault/clock_jump_backwards")
+	}
+	h.clock = t
+	if h.clockReads == nil {
+		h.clockReads = map[string]int{}
+	}
+	setSimClock(t, func(site string) { h.clockReads[site]++ })
 }
 
 func (h *histState) cfgReal(c int) lint.Configuration {
@@ -242,6 +263,10 @@ func (h *histState) step(i int, op *Op) {
 		h.doDefaultCfg(i, op)
 	case "fresh":
 		h.doFresh(i, op)
+	case "clock":
+		h.setClock(op.T)
+		h.ctr.inc("fault/clock_jump")
+		h.log.Add("op %d clock -> %d", i, op.T)
 	case "probe":
 		h.doProbe(i, op)
 	case "direct":
@@ -323,6 +348,15 @@ func (h *histState) lintCall(i int, p *Parsed, reg lint.Registry, path string, p
 			}
 		}
 	}()
+	if h.clock != 0 {
+		for _, site := range sortedKeys(h.clockReads) {
+			h.ctr.add("clock_read/"+site, h.clockReads[site])
+			delete(h.clockReads, site)
+		}
+		if rs != nil && rs.Timestamp == h.clock {
+			h.ctr.inc("clock_seam_live")
+		}
+	}
 	if partial || cs.Panic != "" {
 		if cs.Panic != "" {
 			h.ctr.inc("panic_reached_caller")
@@ -447,7 +481,7 @@ func (h *histState) doLint(i int, op *Op) {
 	o.linted = true
 	h.ctr.inc("lint_path_" + path)
 	h.ctr.inc("lint_kind_" + kindNames[o.spec.Kind])
-	rec := &lintRecord{op: i, obj: op.Obj, reg: op.Reg, cfg: m.Cfg, path: path, fresh: op.Fresh, canon: cs, partial: partial, sel: m.Sel}
+	rec := &lintRecord{op: i, obj: op.Obj, reg: op.Reg, cfg: m.Cfg, path: path, fresh: op.Fresh, canon: cs, partial: partial, sel: m.Sel, clock: h.clock}
 	h.recs = append(h.recs, rec)
 	h.log.Add("op %d lint obj=%d reg=%d path=%s fresh=%v cfg=%d -> %s", i, op.Obj, op.Reg, path, op.Fresh, m.Cfg, cs.hash())
 	h.mark("history_prefix", h.histHash)
@@ -479,15 +513,32 @@ func (h *histState) doRepeat(i int, op *Op) {
 	m := h.mregs[op.Reg]
 	var first *CanonSet
 	bad := map[string]bool{}
+	clock0 := h.clock
 	for k := 0; k < op.R; k++ {
+		if k > 0 && op.T != 0 && h.clock != 0 {
+			// the clock moves between repetitions
+			if t := h.clock + op.T; t > 0 {
+				h.setClock(t)
+				h.ctr.inc("fault/clock_advance_between_repetitions")
+			}
+		}
 		cs, _ := h.lintCall(i, o.parsed, h.regs[op.Reg], "ex", 0, m.Sel)
 		if first == nil {
 			first = cs
 			continue
 		}
 		for _, n := range sortedKeys(cs.Results) {
+			if clockExempt[n] && h.clock != clock0 {
+				continue // the two lints that read today's TLD table may follow the clock
+			}
 			if cs.Results[n] != first.Results[n] && !bad[n] {
 				bad[n] = true
+				if h.clock != clock0 {
+					h.violate(Violation{Property: "C05", Class: "clock_dep", Lint: n, Op: i,
+						Detail:   fmt.Sprintf("repetition %d of the same call on the same object differs from the first after the clock moved from %d to %d; only the two TLD-table lints may read the clock", k, clock0, h.clock),
+						Expected: first.Results[n].String(), Got: cs.Results[n].String()})
+					continue
+				}
 				h.violate(Violation{Property: "C05", Class: "nondet_repeat", Lint: n, Op: i,
 					Detail:   fmt.Sprintf("repetition %d of the same call on the same object differs from the first", k),
 					Expected: first.Results[n].String(), Got: cs.Results[n].String()})
@@ -498,7 +549,7 @@ func (h *histState) doRepeat(i int, op *Op) {
 	h.checks += op.R
 	h.ctr.add("repeat_calls", op.R)
 	if first != nil {
-		h.recs = append(h.recs, &lintRecord{op: i, obj: op.Obj, reg: op.Reg, cfg: m.Cfg, path: "ex", canon: first, sel: m.Sel})
+		h.recs = append(h.recs, &lintRecord{op: i, obj: op.Obj, reg: op.Reg, cfg: m.Cfg, path: "ex", canon: first, sel: m.Sel, clock: clock0})
 		h.log.Add("op %d repeat obj=%d reg=%d R=%d -> %s unstable=%d", i, op.Obj, op.Reg, op.R, first.hash(), len(bad))
 	}
 	h.checkReadOnly(i, o)
